@@ -21,10 +21,10 @@ def derive_seed(*parts: Any) -> int:
 
 
 class Choices:
-    __slots__ = ('_rng', '_replay', '_pos', 'trace', 'radices', 'seed', 'labels', '_keep_labels')
+    __slots__ = ('_rng', '_replay', '_pos', 'trace', 'radices', 'seed', 'labels', '_keep_labels', '_forced')
 
     def __init__(self, seed: Optional[int] = None, prefix: Sequence[int] = (), replay: Optional[Sequence[int]] = None,
-                 keep_labels: bool = False):
+                 keep_labels: bool = False, forced: Optional[dict] = None):
         self.seed = seed
         if replay is not None:
             self._replay: Optional[List[int]] = list(replay)
@@ -32,6 +32,8 @@ class Choices:
         else:
             self._replay = list(prefix) if prefix else None
             self._rng = random.Random(seed)
+        # systematic sweeps: label -> values forced onto the successive draws carrying that label (generate mode only)
+        self._forced = {k: list(v) for k, v in forced.items()} if forced and replay is None else None
         self._pos = 0
         self.trace: List[int] = []
         self.radices: List[int] = []
@@ -44,7 +46,12 @@ class Choices:
         if n <= 1:
             return 0
         rep = self._replay
-        if rep is not None and self._pos < len(rep):
+        forced = self._forced
+        if forced is not None and forced.get(label):
+            v = forced[label].pop(0) % n
+            if self._rng is not None:
+                self._rng.randrange(n)  # keep the stream position independent of what was forced
+        elif rep is not None and self._pos < len(rep):
             v = rep[self._pos] % n
         elif self._rng is not None:
             v = self._rng.randrange(n)
